@@ -9,7 +9,7 @@ import json, os, re, subprocess, sys
 
 VERIF = os.path.dirname(os.path.dirname(os.path.abspath(__file__)))
 MC = os.path.join(VERIF, "mc")
-OUT = os.path.join(MC, ".overlay")
+OUT = os.environ.get("VERIF_OVERLAY_OUT") or os.path.join(MC, ".overlay")
 REPO = os.environ.get("VERIF_REPO", "/repo")
 SRC = os.path.join(VERIF, "overlay_src")
 
